@@ -80,7 +80,7 @@ func Connect(ctx context.Context, endpoint Endpoint, recv Receiver) (c *Conn, er
 
 	if endpoint.TLSConfig() != nil {
 		tlsConn := tls.Client(conn, endpoint.TLSConfig())
-		if err = tlsConn.Handshake(); err != nil {
+		if err = tlsConn.HandshakeContext(ctx); err != nil {
 			return nil, err
 		}
 		conn = tlsConn
